@@ -151,6 +151,37 @@ func c10Extent(c *Ctx) {
 		}
 	})
 	_ = isB
+	// per-datagram decode state: the reader ParseMessage gets is built for this datagram, in this iteration, over b[:n];
+	// a reader (or the byte source under it) that outlives the iteration carries unread bytes of one datagram into the next
+	for i, cs := range w.callsIn(f, "ParseMessage") {
+		pm := cs.In
+		key := fmt.Sprintf("startParseMessage/reader-per-datagram#%d", i+1)
+		v := callArg(pm, 0)
+		var chain []*ssa.Call
+		for {
+			var next *ssa.Call
+			for _, n := range []string{"bufio.NewReader", "bufio.NewReaderSize", "bytes.NewBuffer", "bytes.NewReader"} {
+				if cc := w.resultOfCallTo(v, n, 0); cc != nil {
+					next = cc
+				}
+			}
+			if next == nil {
+				break
+			}
+			chain = append(chain, next)
+			v = next.Call.Args[0]
+		}
+		sl, isSl := strip(v).(*ssa.Slice)
+		good := len(chain) > 0 && isSl && isBRaw(sl.X, cell, recvVal)
+		why := "the reader given to ParseMessage is not built in the parse loop from b[:n] of the datagram just received (" + describe(w, []ssa.Value{callArg(pm, 0)}) + ")"
+		for _, cc := range chain {
+			if good && canReach(at(pm), nil, isInstr(pm), isInstr(cc)) {
+				good = false
+				why = "the " + w.calleeName(cc) + " under the reader given to ParseMessage is created once and reused for the next datagram: bytes of a datagram that the parser left unread (trailing bytes behind the declared body, the rest of a rejected datagram) are decoded as the beginning of the next one"
+			}
+		}
+		c.check(good, rule, key, w.ipos(pm), "every datagram is decoded through a reader of its own over b[:n]", why)
+	}
 	c.check(nUses >= 2, rule, "startParseMessage/buffer-uses", w.pos(f.Pos()), "the buffer is parsed and freed", fmt.Sprintf("only %d uses of the received buffer found", nUses))
 	c.floor(rule, 6)
 }
